@@ -166,6 +166,24 @@ fn main() {
             }
         }
     }
+    // names that differ only in letter case are different types (legal Rust): all graphs on 3 such names
+    {
+        let cn = ["UserId", "UserID", "userid"];
+        for edges in 0..(1u32 << 9) {
+            for req in 1..(1u32 << 3) {
+                let types: HashSet<String> = (0..3).filter(|t| req & (1 << t) != 0).map(|t| cn[t].to_string()).collect();
+                let input = format!("case-colliding names edges={} requested={}", edges, req);
+                rep.case("topological_sort_types", &input, &|| {
+                    let mut g = TypeDependencyGraph::new();
+                    for u in 0..3 { for v in 0..3 { if edges & (1 << (u * 3 + v)) != 0 { g.add_dependency(cn[u].to_string(), cn[v].to_string()); } } }
+                    let res = g.topological_sort_types(&types);
+                    // the same oracle as above, on positions 0..3
+                    let mapped: Vec<String> = res.iter().map(|n| NAMES[cn.iter().position(|c| c == n).unwrap_or(3)].to_string()).collect();
+                    match violates(3, edges, req, &mapped) { None => Ok(format!("{:?}", res)), Some(w) => Err(format!("{} (result {:?}; A=UserId B=UserID C=userid)", w, res)) }
+                });
+            }
+        }
+    }
     // large structured graphs (deep chains, ladders, wide fans, one long cycle): size-dependent behaviour
     // (depth limits, early exits) is invisible on the 4-node family above
     for (gname, names, es) in big_graphs() {
